@@ -765,7 +765,7 @@ fn run(tier: Tier, seed: u64) -> i32 {
                     st.elided += ms.elided;
                     // distinct by the shape of the history (operation kinds and handle structure)
                     distinct.insert(vcore::hash_str(&format!("{ops:?}")));
-                    if w == 0 && samples.len() < 2 && ops.len() > 12 {
+                    if i < 64 && ops.len() > 12 {
                         samples.push(json!({"history_index": i, "ops": ops.iter().map(|o| format!("{o:?}")).collect::<Vec<_>>()}));
                     }
                     if let Some((class, detail, _)) = r.viol {
@@ -807,6 +807,8 @@ fn run(tier: Tier, seed: u64) -> i32 {
         st.elided += s.elided;
         samples.extend(smp);
     }
+    samples.sort_by_key(|x| x["history_index"].as_u64().unwrap_or(u64::MAX));
+    samples.truncate(2);
     for (class, (detail, ops, handles, idx)) in &found {
         if class.starts_with("harness.") {
             vcore::harness_error(&format!("the abstract parser machine produced an invalid history (#{idx}): {detail}"));
@@ -833,6 +835,7 @@ fn run(tier: Tier, seed: u64) -> i32 {
         coverage: json!({
             "evaluations": hist,
             "distinct_nontrivial": distinct.len(),
+            "run_digest": format!("{:016x}", distinct.iter().fold(0u64, |a, h| a ^ vcore::mix(*h))),
             "rule": "evaluation = one seeded well-nested history (<= 60 operations) of tree-builder operations issued by an abstract parser machine in exactly the patterns generated rule code uses (open..close, deferred/elided nodes, marker/creation wrappers, Pratt loops, token+trailing trivia, error-node episodes, trailing garbage, one active mark_truncation..truncate at arbitrary points), executed on the real CstData emitted by /repo's lelwel and on a pointer-based reference tree. After every operation: node vector = flattened reference (kinds, extents, order), token counter, content end; after every close: the closed node through children()/get()/span() = reference node (kinds, token spans, rule spans incl. the empty-node rule), no skipped first/last child. Non-trivial = every history closes at least the root; distinct = different operation list.",
             "samples": samples,
             "operations_executed": ops_total,
